@@ -2,6 +2,7 @@ import NmVerif.Proto
 import NmVerif.Static
 import NmVerif.StaticMore
 import NmVerif.StaticEval
+import NmVerif.StaticGen
 /-
   Driver for C11: `c11 rpn=<tok>;<tok>;… shapes=<leaf shape>;… rargs=<run-time argument>;…`
   interprets the program (reverse Polish, tokens written by harness/gen_c11.py) twice at once:
@@ -33,6 +34,9 @@ structure St where
   stack : List (SInfo × Shape)
   shapes : List (List Nat)
   rargs : List (List Int)
+  /-- type of the PLAIN `nmtools::shape(a)` of the operand on top of the stack when it differs from its knowledge
+      (a `na::fixed_ndarray` leaf: run-time array of the constant extents); reset by every operation -/
+  plain : Option ShapeK := none
 
 abbrev M := Except String
 
@@ -71,6 +75,7 @@ def arrArg (fields : List String) (st : St) : M (ArrK × List Int × St) :=
   | "cl" :: m :: v :: _ => do let mx ← nats? m; let l ← nats? v; pure (.cl mx, l.map Int.ofNat, st)
   | "rt" :: n :: _ => do let k ← nat? n; let (r, st') ← popArg st; pure (.rt k, r, st')
   | "rtv" :: _ => do let (r, st') ← popArg st; pure (.rtv, r, st')
+  | "sv" :: n :: _ => do let k ← nat? n; let (r, st') ← popArg st; pure (.bnd k, r, st')
   | _ => .error "bad-array-arg"
 
 def axisArg (fields : List String) (st : St) : M (AxisK × Option (List Nat) × St) :=
@@ -198,6 +203,80 @@ def stepMore (st : St) (fields : List String) : Option (M St) :=
     else none
   | _ => none
 
+/-- optional axis of the third group: `axn` | `axc<k>` | `axr<k>` | `axr` (run-time -1 = the last axis of the instance) -/
+def axExtLast (f : String) (rank : Nat) : M (AxisK × Option Nat) :=
+  if f == "axr" then (if rank = 0 then .error "rank-0" else pure (.rts, some (rank - 1))) else axExt f
+
+def pair? (l : List Nat) : M (List Nat) :=
+  match l with
+  | [_, _] => pure l
+  | [n] => pure [n, n]
+  | _ => .error "bad-pair"
+
+/-- the view kinds of NmVerif.StaticGen; `none` = not one of them.  eye / tri have no array operand: the generator hangs
+    them under a leaf that only supplies run-time numbers, which is popped and dropped -/
+def stepGen (st : St) (fields : List String) : Option (M St) :=
+  match fields with
+  | name :: args =>
+    if name == "eye" || name == "tri" then some do
+      let (_, st) ← pop1 st
+      let (k, v, st) ← (match args with
+        | "ct" :: v :: _ => do let l ← nats? v; let l ← pair? l; pure (ArrK.ct l, l, st)
+        | "cts" :: v :: _ => do let n ← nat? v; pure (ArrK.ct [n, n], [n, n], st)
+        | "rt" :: _ => do let (r, st') ← popArg st; let l ← toNats r; let l ← pair? l; pure (ArrK.rt 2, l, st')
+        | "rts" :: _ => do let (r, st') ← popArg st; let l ← toNats r; let l ← pair? l; pure (ArrK.rt 2, l, st')
+        | _ => .error "bad-eye-arg" : M (ArrK × List Nat × St))
+      let o ← need (if name == "eye" then transferEye k else transferTri k) "transfer"
+      pure { st with stack := (o, v) :: st.stack }
+    else if name == "tril" || name == "triu" then some do
+      let st ← (match args with
+        | "rts" :: _ => do let (_, st') ← popArg st; pure st'
+        | _ => pure st : M St)
+      unary st transferTril (fun s => some (refTril s))
+    else if name == "max_pool2d" || name == "avg_pool2d" then some do
+      -- kernel: ct.<v> | rt.<n>; stride `s<k>` = (k, k) of the SAME kind as the kernel; `c<0|1>` = ceil_mode (a constant)
+      let (kk, kv, st) ← arrArg args st
+      let kvn ← toNats kv
+      let sf ← need (args.find? (fun f => f.startsWith "s")) "stride"
+      let sn ← nat? (sf.drop 1).toString
+      let ceil := args.contains "c1"
+      let sk : ArrK := match kk with | .ct _ => .ct [sn, sn] | _ => .rt 2
+      let plain := st.plain
+      unary st (fun i => transferPool2dOn (plain.getD i.shape) kk sk ceil) (refPool ceil kvn [sn, sn])
+    else if name == "resize" then some do
+      let (k, v, st) ← arrArg args st
+      let t ← toNats v
+      unary st (transferResize k) (refResize t)
+    else if name == "sliding_window" then some do
+      let ((i, s), st) ← pop1 st
+      let (ax, axis) ← axExtLast (lastField args) s.length
+      let (w, wv, st) ← (match args with
+        | "cts" :: v :: _ => do let n ← nat? v; pure (WinK.num (.ct n), WinV.num n, st)
+        | "rts" :: _ => do
+            let (r, st') ← popArg st
+            match ← toNats r with
+            | [n] => pure (WinK.num .rt, WinV.num n, st')
+            | _ => .error "bad-window"
+        | _ => do let (k, v, st') ← arrArg args st; let l ← toNats v; pure (WinK.arr k, WinV.arr l, st') : M (WinK × WinV × St))
+      let o ← need (transferSlidingWindow w ax i) "transfer"
+      let t ← need (refSlidingWindow wv axis s) "ref-shape"
+      pure { st with stack := (o, t) :: st.stack }
+    else if name == "compress" then some do
+      let ((i, s), st) ← pop1 st
+      let (c, v, st) ← arrArg args st
+      let cv ← toNats v
+      let (ax, axis) ← axExtLast (lastField args) s.length
+      let o ← need (transferCompress c ax i) "transfer"
+      let t ← need (refCompress cv axis s) "ref-shape"
+      pure { st with stack := (o, t) :: st.stack }
+    else if name == "outer_add" then some do
+      let ((j, sb), st) ← pop1 st
+      let ((i, sa), st) ← pop1 st
+      let o ← need (transferOuter i j) "transfer"
+      pure { st with stack := (o, refOuter sa sb) :: st.stack }
+    else none
+  | _ => none
+
 def step (st : St) (tok : String) : M St := do
   let fields := tok.splitOn "."
   match fields with
@@ -207,7 +286,7 @@ def step (st : St) (tok : String) : M St := do
     | [] => .error "missing-shape"
     | s :: ss =>
       let i ← need (leafInfo kind P) "unknown-leaf-kind"
-      pure { st with stack := (i, s) :: st.stack, shapes := ss }
+      pure { st with stack := (i, s) :: st.stack, shapes := ss, plain := if kind == "fx" then some (.fixedDim P.length) else none }
   | "transpose" :: args =>
     let ((i, s), st) ← pop1 st
     match args with
@@ -284,11 +363,17 @@ def step (st : St) (tok : String) : M St := do
   | _ =>
     match stepMore st fields with
     | some r => r
-    | none => .error s!"unknown-token:{tok}"
+    | none =>
+      match stepGen st fields with
+      | some r => r
+      | none => .error s!"unknown-token:{tok}"
 
 def run (rpn : String) (shapes : List (List Nat)) (rargs : List (List Int)) : String :=
   let toks := (rpn.splitOn ";").filter (· ≠ "")
-  match toks.foldlM step { stack := [], shapes := shapes, rargs := rargs } with
+  let step' (st : St) (tok : String) : M St := do
+    let st' ← step st tok
+    pure (if tok.startsWith "L." then st' else { st' with plain := none })
+  match toks.foldlM step' { stack := [], shapes := shapes, rargs := rargs } with
   | .error e => s!"M unsupported:{e}"
   | .ok st =>
     match st.stack with
@@ -300,8 +385,62 @@ def run (rpn : String) (shapes : List (List Nat)) (rargs : List (List Int)) : St
       s!"M {fmtInfo i} shape={fmtNats s}{res}"
     | _ => "M unsupported:stack"
 
+/-! ### `c11old op=… kind=… shape=… [kind2=… shape2=…]`: the older resolver of a bare `array::eval(view)` (harness/h_c11_old.cpp) -/
+
+/-- leaf kinds of h_c11_old.cpp: (knowledge of the array type, what the older resolver sees of it, static rank) -/
+def oldLeaf (kind : String) : Option (SInfo × OperK × Nat) :=
+  match kind with
+  | "fd2" => some (⟨.fixedDim 2, .any⟩, ⟨.fixedDim 2, .dyn⟩, 2)
+  | "fd3" => some (⟨.fixedDim 3, .any⟩, ⟨.fixedDim 3, .dyn⟩, 3)
+  | "bd3" => some (⟨.boundedDim 3, .any⟩, ⟨.boundedDim 3, .dyn⟩, 0)
+  | "dy" => some (⟨.dyn, .any⟩, ⟨.dyn, .dyn⟩, 0)
+  | "cs23" => some (⟨.const [2, 3], .known 6⟩, ⟨.const [2, 3], .fixed 6⟩, 2)
+  | "fdf23" => some (⟨.fixedDim 2, .known 6⟩, ⟨.fixedDim 2, .fixed 6⟩, 2)
+  | "cld23" => some (⟨.clipped [2, 3], .any⟩, ⟨.clipped [2, 3], .dyn⟩, 2)
+  | _ => none
+
+def fmtOld (v : SInfo) (t : Shape) (r : Option ResK) : String :=
+  match r with
+  | none => "M unsupported:does-not-compile"
+  | some r =>
+    let b (x : Bool) : String := if x then "1" else "0"
+    s!"M shape={fmtNats t} ork={fmtShapeK r.info.shape} orfz={fmtOptNat r.info.fixedSize} orbz={fmtOptNat r.info.boundedSize} covers={b (r.covers v)} fits={b (decide (r.admits t))}"
+
+def runOld (op kind : String) (s : Shape) (second : Option (String × Shape)) : M String := do
+  let (i, a, rank) ← need (oldLeaf kind) "unknown-leaf-kind"
+  if op == "add" then
+    let (k2, s2) ← need second "second-operand"
+    let (j, b, _) ← need (oldLeaf k2) "unknown-leaf-kind"
+    let v ← need (transferUfunc2 i j) "transfer"
+    let t ← need (refBroadcast s s2) "ref-shape"
+    pure (fmtOld v t (resolveEvalOld2 a b v))
+  else
+    let (v, t) ← (match op with
+      | "neg" => do let v ← need (transferUfunc1 i) "transfer"; pure (v, s)
+      | "tr" => do let v ← need (transferTranspose none i) "transfer"; pure (v, s.reverse)
+      | "tile2" => do let v ← need (transferTile .rtv i) "transfer"; pure (v, refTile (List.replicate (s.length + 1) 2) s)
+      | "tileN" =>
+        if rank = 0 then .error "unknown-op"
+        else do let v ← need (transferTile (.rt rank) i) "transfer"; pure (v, refTile (List.replicate (rank - 1) 1 ++ [2]) s)
+      | "exp0" => do
+          let v ← need (transferExpandDims .rts i) "transfer"
+          let t ← need (refExpandDims [0] s) "ref-shape"
+          pure (v, t)
+      | _ => .error "unknown-op" : M (SInfo × Shape))
+    pure (fmtOld v t (resolveEvalOld1 a v))
+
 def handle : Handler := fun op a =>
   match op with
+  | "c11old" => orBad do
+      let o ← a.get? "op"
+      let kind ← a.get? "kind"
+      let shapes ← a.natLists "shape"
+      let s := shapes.headD []
+      let second : Option (String × Shape) := do
+        let k2 ← a.get? "kind2"
+        let s2 ← a.natLists "shape2"
+        pure (k2, s2.headD [])
+      pure (match runOld o kind s second with | .ok r => r | .error e => s!"M unsupported:{e}")
   | "c11" => orBad do
       let rpn ← a.get? "rpn"
       let shapes ← a.natLists "shapes"
